@@ -213,6 +213,18 @@ func vkKeyTagSection(r *vkRun, thorough bool) {
 		if len(raw) > 4200 && !thorough {
 			continue
 		}
+		// every line-wrap width up to past the decoder's 256-character window, LF and CRLF:
+		// how many line-break characters fall into one window (and whether their count is a
+		// multiple of four) depends on the width
+		for w := 1; w <= 260; w++ {
+			for _, sep := range []struct{ n, s string }{{"lf", "\n"}, {"crlf", "\r\n"}} {
+				enc := vkEnc{fmt.Sprintf("%s~wrap%d%s", mat.Name, w, sep.n), vkWrap(mat.Pub, w, sep.s)}
+				vkKeyTagCase(r, enc, 8, 257, 3)
+				if thorough || w%7 == 0 {
+					vkKeyTagCase(r, enc, 1, 257, 3)
+				}
+			}
+		}
 		encs := vkEncodings(mat.Name, mat.Pub, thorough)
 		nEnc += len(encs)
 		for _, enc := range encs[1:] {
